@@ -71,8 +71,8 @@ def tie_tolerant(e, o, exp):
 
     v = e.output_variables[o]
     dz = v.defuzzifier
-    if type(dz).__name__ not in CLS:
-        return False
+    if type(dz).__name__ not in CLS or type(dz).__name__ == "Centroid":
+        return False        # (a centroid has no ties: it is compared with the specification's value itself)
     try:
         raw = float(np.asarray(dz.defuzzify(v.fuzzy, v.minimum, v.maximum)))
         ok, _ = own_reduction_ok(fl, type(dz).__name__, v.fuzzy, v.minimum, v.maximum, dz.resolution, raw)
